@@ -61,7 +61,7 @@ CReset(e) ==
    fatal |-> FALSE,
    late |-> FALSE,         \* a closer was still unfinished strictly after t0 + G
    tie |-> FALSE,          \* a closer finished exactly at t0 + G
-   first |-> 0,            \* id of the first Run call
+   accepted |-> 0,         \* id of the Run call that returned as the manager's one accepted run (0: none yet)
    runs |-> [k \in 1..e.nruns |-> "idle"],           \* idle | called | returned
    closes |-> [k \in 1..e.ncl |-> "idle"]]
 
@@ -130,30 +130,35 @@ CAddCloserRetMix(c, e) ==
 CAddCloserBad(c, e) ==
   IF e.ok THEN Bad("AddCloser accepted a value of an unsupported type") ELSE c
 
+(* Run calls may be issued concurrently: exactly one of them may be accepted (it need not be the one announced   *)
+(* first); every other one is rejected, which is legitimate only when another Run (pending or accepted) or a Close *)
+(* used up the manager's single life                                                                               *)
 CRunCall(c, e) ==
   IF c.runs[e.id] # "idle" THEN Bad("harness: Run id reused")
   ELSE LET c1 == [c EXCEPT !.runs[e.id] = "called"] IN
-  IF c.first # 0 THEN c1                      \* a further Run: has to be rejected
-  ELSE LET c2 == [c1 EXCEPT !.first = e.id, !.t0 = IF NoRunners(c) THEN e.now ELSE -1] IN
-       IF c.phase = "new" THEN [c2 EXCEPT !.phase = "starting"]
-       ELSE IF c.phase = "preclose" THEN [c2 EXCEPT !.phase = "race"]
-       ELSE c2                                 \* neverran: has to be rejected
+  IF c.phase = "new" THEN [c1 EXCEPT !.phase = "starting", !.t0 = IF NoRunners(c) THEN e.now ELSE -1]
+  ELSE IF c.phase = "preclose" THEN [c1 EXCEPT !.phase = "race", !.t0 = IF NoRunners(c) THEN e.now ELSE -1]
+  ELSE c1                                   \* a further Run (or one on a closed manager): has to be rejected
+
+OtherRun(c, id) == c.accepted # 0 \/ \E k \in DOMAIN c.runs : k # id /\ c.runs[k] = "called"
 
 CRunReturn(c, e) ==
   IF c.runs[e.id] # "called" THEN Bad("harness: return of a Run that was not called")
   ELSE LET c1 == [c EXCEPT !.runs[e.id] = "returned"] IN
-  IF e.id # c.first THEN (IF e.rejected THEN c1 ELSE Bad("a second Run was accepted"))
-  ELSE IF c.phase = "neverran"
-    THEN (IF e.rejected THEN c1 ELSE Bad("Run was accepted after Close on a manager that never ran"))
-  ELSE IF e.rejected
-    THEN (IF c.phase = "race" THEN [c1 EXCEPT !.phase = "neverran"] ELSE Bad("the first Run was rejected"))
+  IF e.rejected THEN
+    (IF c.phase = "neverran" \/ OtherRun(c, e.id) THEN c1
+     ELSE IF c.phase = "race" THEN [c1 EXCEPT !.phase = "neverran"]      \* Close won
+     ELSE Bad("the first Run was rejected"))
+  ELSE IF c.accepted # 0 THEN Bad("a second Run was accepted")
+  ELSE IF c.phase = "neverran" THEN Bad("Run was accepted after Close on a manager that never ran")
+  ELSE IF c.phase \notin {"starting", "race", "running"} THEN Bad("harness: Run returned in an impossible phase")
   ELSE LET c2 == Accepted(c1) IN
     IF ~AllStarted(c2) THEN Bad("Run returned although a registered runner was never started")
     ELSE IF ~AllRet(c2) THEN Bad("Run returned while a runner is still running")
     ELSE IF ~ClosersInvoked(c2) THEN Bad("Run returned although a registered closer was never invoked")
     ELSE IF ~ClosersDone(c2) THEN Bad("Run returned before every registered closer finished")
     ELSE IF ~BagOK(c2, e.errs) THEN Bad("Run did not report exactly the non-nil non-Canceled runner errors and the closer errors")
-    ELSE [c2 EXCEPT !.phase = "finished"]
+    ELSE [c2 EXCEPT !.phase = "finished", !.accepted = e.id]
 
 CCloseCall(c, e) ==
   IF c.kind # "rcm" THEN Bad("harness: Close on a plain RunnerManager")
@@ -235,7 +240,7 @@ CFatal(c0, e) ==
   ELSE [c EXCEPT !.fatal = TRUE]
 
 PendingRun(c) == \E k \in DOMAIN c.runs : c.runs[k] = "called"
-PendingSecondRun(c) == \E k \in DOMAIN c.runs : c.runs[k] = "called" /\ k # c.first
+PendingSecondRun(c) == Cardinality({k \in DOMAIN c.runs : c.runs[k] = "called"}) >= 2
 PendingClose(c) == \E k \in DOMAIN c.closes : c.closes[k] = "called"
 
 (* at quiescence everything the manager owes has to have happened *)
